@@ -380,6 +380,78 @@ def composition_task(cases):
     return st
 
 
+# ---- (3b) two comparison atoms in one filter: every ordered pair of literal kinds ----------------------------
+
+def _variants(L):
+    lit = L['lit']
+    out = []
+    if lit[0] == 'num' and lit[1] == lit[1] and lit[1] not in (float('inf'), float('-inf')):
+        if lit[2] is not None:
+            out += [N.num(lit[1], 's' if lit[2] != 's' else 'kg'), N.num(lit[1], None)]
+        else:
+            out += [N.num(lit[1], 'kg')]
+    return out
+
+
+def pair_task(cases):
+    """`a op1 L1 <and|or> b op2 L2`: the literals of one filter are independent of each other, whatever their kinds
+    (rows take each literal's value, and its same-magnitude relatives, under either tag)."""
+    import hszinc as hs
+    st = Stats()
+    for n1, n2, conn, op1, op2 in cases:
+        L1, L2 = LIT_BY_NAME[n1], LIT_BY_NAME[n2]
+        ast = (conn, ('cmp', op1, ('a',), L1['lit']), ('cmp', op2, ('b',), L2['lit']))
+        avals, bvals = [], []
+        for v in [L1['lit'], L2['lit']] + _variants(L1) + _variants(L2):
+            if v not in avals:
+                avals.append(v)
+        for v in [L2['lit'], L1['lit']] + _variants(L2) + _variants(L1):
+            if v not in bvals:
+                bvals.append(v)
+        rows = []
+        for av in avals:
+            for bv in bvals:
+                rows.append({'id': ('str', 'r%d' % len(rows)), 'a': av, 'b': bv})
+        judged = [('row%d' % i, r) for i, r in enumerate(rows)]
+        text = RF.render(ast, 'min')
+        sig = {'part': 'pair', 'literals': '%s,%s' % (n1, n2), 'ops': op1 + ',' + op2, 'conn': conn}
+        case = {'part': 'pair', 'l1': n1, 'l2': n2, 'conn': conn, 'op1': op1, 'op2': op2}
+        ok = judge(hs, ast, text, rows, judged, st, sig, case, check_header=False)
+        st.case(('pair', text), outcome=('pair', ok, n1 == n2))
+    return st
+
+
+# ---- (3c) a long compile history with filters that stay in use --------------------------------------------
+
+def hot_filter_history(st, n=1300):
+    """More distinct filters than any cache holds are compiled one after the other while three filters stay in use
+    throughout; after every step the filters in use and the filter just compiled must still answer as at first."""
+    import hszinc as hs
+    rows = [{'id': ('str', 'r0'), 'site': MK, 'a': N.num(5.0)}, {'id': ('str', 'r1'), 'b': MK, 'a': N.num(6.0)},
+            {'id': ('str', 'r2'), 'site': MK, 'b': MK}, {'id': ('str', 'r3'), 'n': N.num(7.0)}]
+    g, objs = build_grid(hs, rows)
+    hot = [('site', [0, 2]), ('a == 5', [0]), ('not b', [0, 3])]
+
+    def answer(text):
+        out = run_filter(hs, g, text)
+        if out[0] != 'ok':
+            return 'raised ' + out[1]
+        return [k for x in out[1] for k, o in enumerate(objs) if o is x]
+    for i in range(n):
+        text = 'n == %d' % i if i % 2 else 'not t%d' % i
+        want = ([3] if i == 7 else []) if i % 2 else [0, 1, 2, 3]
+        checks = [(text, want, 'filter-just-compiled')] + [(h, w, 'filter-in-use') for h, w in (hot if i % 5 == 0 else [hot[i % 3]])]
+        for t, w, role in checks:
+            got = answer(t)
+            st.count('executions')
+            if got != w:
+                st.fail('filter-answer-changed-after-other-filters-were-compiled', {'part': 'hot-history', 'role': role, 'filter': t},
+                        {'part': 'hot-history'}, {'filter': t, 'expected_rows': w, 'observed': got, 'distinct_filters_compiled_before': i})
+                return False
+    st.case(('hot-history', n), outcome=('hot-history', True))
+    return True
+
+
 # ---- (4) limit, empty filter -----------------------------------------------------------------------
 
 def limit_checks(st):
@@ -467,6 +539,14 @@ def run(ctx):
     rng.shuffle(comp)
     for part in pmap(composition_task, [(c,) for c in chunks(comp, ctx.jobs * 4)], ctx.jobs):
         st.merge(part)
+    names = [L['name'] for L in LITS]
+    oppairs = [('==', '==')] if ctx.quick else [('==', '=='), ('<', '>'), ('!=', '=='), ('>=', '<=')]
+    pairs = [(n1, n2, conn, o1, o2) for n1 in names for n2 in names for conn in ('and', 'or') for o1, o2 in oppairs]
+    rng.shuffle(pairs)
+    for part in pmap(pair_task, [(c,) for c in chunks(pairs, ctx.jobs * 4)], ctx.jobs):
+        st.merge(part)
+    for part in pmap(_hot_task, [(1300 if ctx.quick else 4000,)], ctx.jobs):
+        st.merge(part)
     limit_checks(st)
     spacing_checks(st)
     unversioned_checks(st)
@@ -477,20 +557,35 @@ def run(ctx):
         'rule': '(1) every and/or tree with <= %d leaves x every leaf polarity x %d renderings, each on the grid of all presence valuations; (2) every '
                 'literal kind (%d) x path shape (%d) x operator (has, not, 6 comparisons) x id style, on rows realising every valuation class '
                 '(absent, null, marker, equal, below, above, other kind, dangling reference, missing reference tag); (3) every atom under 8 '
-                'connective positions x 2 renderings on the product of its valuations with two other tags; (4) limit and empty filter; evaluations = '
+                'connective positions x 2 renderings on the product of its valuations with two other tags; (3b) every ordered pair of literal kinds as two '
+                'comparison atoms of one filter (and / or) on the product of both literals\' values and same-magnitude relatives under either tag; '
+                '(3c) a compile history longer than the cache with three filters kept in use; (4) limit and empty filter; evaluations = '
                 'filter evaluations against the real Grid.filter / generated function; distinct = distinct (filter text, id style)' % (
                     nleaves, len(styles), len(LITS), len(PATHS)),
         'coverage': {'bounds': {'max_leaves': nleaves, 'trees': len(asts), 'renderings': len(styles), 'literal_kinds': [l['name'] for l in LITS],
-                                'paths': ['->'.join(p) for p in PATHS], 'atom_cases': len(cases), 'composition_cases': len(comp)}},
+                                'paths': ['->'.join(p) for p in PATHS], 'atom_cases': len(cases), 'composition_cases': len(comp),
+                                'literal_pair_filters': len(pairs), 'hot_history_distinct_filters': 1300 if ctx.quick else 4000}},
         'assumptions': ['three-valued oracle (DESIGN.md Appendix C): null-valued tags, NaN, number-vs-quantity and differing units, bool-vs-number are '
                         'don\'t-care; a row is compared only when the whole formula is definite; an exception on a definite row is a violation',
                         'a path whose intermediate value is not a reference is outside the statement and never generated'],
     }
 
 
+def _hot_task(n):
+    st = Stats()
+    hot_filter_history(st, n)
+    return st
+
+
 def replay(case, st):
     import hszinc as hs
     p = case['part']
+    if p == 'pair':
+        st.merge(pair_task([(case['l1'], case['l2'], case['conn'], case['op1'], case['op2'])]))
+        return
+    if p == 'hot-history':
+        hot_filter_history(st, 4000)
+        return
     if p == 'structure':
         def tup(x):
             return tuple(tup(y) if isinstance(y, list) else y for y in x)
